@@ -1,5 +1,6 @@
 //! Network-related utilities (TCP tuning)
 
+#[cfg_attr(anytls_verif, allow(unused_imports))]
 use std::time::Duration;
 use tokio::net::TcpStream;
 use tracing::debug;
@@ -13,6 +14,7 @@ pub fn configure_tcp_stream(stream: &TcpStream, context: &str) {
         );
     }
 
+    #[cfg(not(anytls_verif))]
     #[cfg(any(unix, windows))]
     {
         use socket2::{SockRef, TcpKeepalive};
